@@ -32,6 +32,7 @@ def main():
     checks = None
     tier = "quick"
     skip_demo = "--skip-demo" in args
+    update_meta = "--update-meta" in args     # for /verif/seeded/<id>: merge the outcome into meta.json's check_runs
     for i, a in enumerate(args):
         if a == "--checks":
             checks = args[i + 1].split(",")
@@ -98,6 +99,11 @@ def main():
         repo = os.path.join(tmp, "repo")
         shutil.copytree("/repo", repo, ignore=shutil.ignore_patterns(".git"))
         rc, out = sh("patch -p1 --no-backup-if-mismatch < %s" % os.path.join(d, "patch.diff"), cwd=repo)
+        if rc != 0 and os.path.exists(os.path.join(d, "patch.rebased.diff")):
+            # the change was rebased by hand after later fix: commits touched the same lines
+            shutil.rmtree(repo)
+            shutil.copytree("/repo", repo, ignore=shutil.ignore_patterns(".git"))
+            rc, out = sh("patch -p2 --no-backup-if-mismatch -d proxy < %s" % os.path.join(d, "patch.rebased.diff"), cwd=repo)
         res["patch_applies_to_repo"] = rc == 0
         if rc != 0:
             res["patch_out"] = out[-500:]
@@ -111,8 +117,19 @@ def main():
             res["checks"].setdefault(c, v)
     finally:
         shutil.rmtree(tmp, ignore_errors=True)
-    with open(os.path.join(d, "result.json"), "w") as fh:
-        json.dump(res, fh, indent=1)
+    if update_meta:
+        runs = meta.setdefault("check_runs", {})
+        for c, v in res.get("checks", {}).items():
+            if c in checks:
+                runs[c] = {"exit": v["exit"], "tier": v.get("tier", "quick"),
+                           "summary": [l for l in v["lines"] if "signature" in l or l.startswith("INCONCLUSIVE")][:3]}
+        if not res.get("patch_applies_to_repo"):
+            meta["patch_applies_to_current_repo"] = False
+        with open(os.path.join(d, "meta.json"), "w") as fh:
+            json.dump(meta, fh, indent=1)
+    else:
+        with open(os.path.join(d, "result.json"), "w") as fh:
+            json.dump(res, fh, indent=1)
     short = {k: res.get(k) for k in ("demo_clean_rc", "demo_patched_rc", "existing_tests_rc", "patch_applies_to_repo")}
     print(os.path.basename(d), short, {c: v["exit"] for c, v in res.get("checks", {}).items()})
 
